@@ -242,6 +242,15 @@ func (d *mapDriver) check(opName, where string, visit func(uint64)) *vio {
 		case refSum != 0:
 			return &vio{pre + "reference-left", fmt.Sprintf("%s: every iterator is closed but reference counts add up to %d (%s)", where, refSum, state)}
 		}
+		// the nodes that are linked but not live (only the tail sentinel is left now) must not hold a removed
+		// entry's value (the map would keep it reachable)
+		var stale int
+		if pan := guard(func() { stale = d.m.VerifStaleValues() }); pan != nil {
+			return &vio{pre + "structure:walk-panic", fmt.Sprintf("%s: stale-value walk panicked: %v", where, pan)}
+		}
+		if stale != 0 {
+			return &vio{pre + "removed-value-held", fmt.Sprintf("%s: every iterator is closed but %d linked node(s) that are not live entries still hold a non-zero value of a removed entry (%s)", where, stale, state)}
+		}
 	} else {
 		switch {
 		case nodes > length+1+j:
@@ -1282,7 +1291,7 @@ func TestCheck(t *testing.T) {
 
 	run := report.New("C11", "exploration")
 	defer run.Finish(t)
-	run.Rule("(A) iterable.Map: every legal sequence over {Add(k absent), Remove(k present), First, NewIterator (<=3 open), It[i].HasNext, It[i].Next, It[i].Close}, k in {a,b,c} up to key renaming, of length 1..depth, and seeded random histories of 1000 calls over 2-5 keys and up to 8 iterators (Add/Remove of any key); each followed by closing every open iterator (ascending and descending slot order); iterators are also taken through the library's iterable.Mixer (map iterator mixed with a slice source, with a source whose Close reports an error - in either position -, with a second map iterator, nested): every sequence of length 1..mixDepth over 2 keys and 2 slots that builds a Mixer, and random histories with Mixers; closing the Mixer is the only Close its owner can issue and counts as closing every map iterator below it. Through VerifWalk after every call: list consistent, nodes <= Len()+1+j and removed-but-linked <= j with j iterators open; with none open nodes == Len()+1, no removed entry linked, reference counts 0. (C) concurrent histories: 2-8 goroutines hammer one cache, at every quiescent point entries <= capacity, nodes <= capacity+1, no in-flight residue. (B) lru.NewCache / lru.NewECache: for every capacity 1..64 nine seeded history classes (GetOrCreate;Clear cycles, Clear-heavy, GetOrCreate;Remove cycles, Remove-heavy, eviction-heavy, hit-heavy, mixed; with injected create errors; and two classes in which the onDelete callback panics inside a share of the Remove calls and at the first/second/third entry of a share of the Clear calls, the caller recovering and going on); through VerifRetained after every call: recency list consistent and nodes <= capacity+1. distinct = distinct observations (A: call kind, Len, open iterators, nodes, removed-but-linked, reference sum; B: capacity, kind of call as it turned out, empty/partial/full, nodes-resident-1)")
+	run.Rule("(A) iterable.Map: every legal sequence over {Add(k absent), Remove(k present), First, NewIterator (<=3 open), It[i].HasNext, It[i].Next, It[i].Close}, k in {a,b,c} up to key renaming, of length 1..depth, and seeded random histories of 1000 calls over 2-5 keys and up to 8 iterators (Add/Remove of any key); each followed by closing every open iterator (ascending and descending slot order); iterators are also taken through the library's iterable.Mixer (map iterator mixed with a slice source, with a source whose Close reports an error - in either position -, with a second map iterator, nested): every sequence of length 1..mixDepth over 2 keys and 2 slots that builds a Mixer, and random histories with Mixers; closing the Mixer is the only Close its owner can issue and counts as closing every map iterator below it. Through VerifWalk after every call: list consistent, nodes <= Len()+1+j and removed-but-linked <= j with j iterators open; with none open nodes == Len()+1, no removed entry linked, reference counts 0, and (hook VerifStaleValues) no linked non-live node holding a removed entry's value. (C) concurrent histories: 2-8 goroutines hammer one cache, at every quiescent point entries <= capacity, nodes <= capacity+1, no in-flight residue. (B) lru.NewCache / lru.NewECache: for every capacity 1..64 nine seeded history classes (GetOrCreate;Clear cycles, Clear-heavy, GetOrCreate;Remove cycles, Remove-heavy, eviction-heavy, hit-heavy, mixed; with injected create errors; and two classes in which the onDelete callback panics inside a share of the Remove calls and at the first/second/third entry of a share of the Clear calls, the caller recovering and going on); through VerifRetained after every call: recency list consistent and nodes <= capacity+1. distinct = distinct observations (A: call kind, Len, open iterators, nodes, removed-but-linked, reference sum; B: capacity, kind of call as it turned out, empty/partial/full, nodes-resident-1)")
 	run.Assume("parts (A) and (B): one goroutine; iterators are never used after Close; no iterator of the harness is open on the caches' internal map")
 	run.Assume("a call that panics by itself ends the history without a verdict here (panics are C10's subject); such histories are counted and make the run inconclusive. A panic injected through the onDelete callback is part of the history: it is raised only inside Remove and Clear, which release the cache's lock by defer so that the cache stays usable; never in an eviction or in create, where the unchanged library keeps its lock / in-flight entry and the cache cannot serve further calls")
 	run.Assume("an iterator handed to iterable.Mixer is owned by the Mixer: Mixer.Close is the close of both sources whatever error it reports")
